@@ -11,6 +11,9 @@ spec20  <obs in the same form> (c20 …)   → holds | violates g.r:aspect,…
 c20strip <fixed> <hex path>              → hex            (vendor stripping of opNamed)
 c20ident <hex path>                      → hex            (the spec's package identity)
 c20split <hex fqn>                       → <hex path> <hex name> | none
+c20dep <root> <hex path> (graph dpkg*)   → graph:<i> | importer   (findTypeNoCache's choice of package: findDependency, else the importer)
+spec20dep <obs> <root> <hex path> (graph dpkg*) → holds | violates
+dpkg  := (pkg path complete (import-index*))
 pkg   := (pkg path (obj name i|o (methods m*) (impls i*) (mi (m i*)*))*)
 ty    := (n path name) | (p ty) | (s ty) | o
 group := (g name rejected (imports (n p)*) (r is|uis|impl|hasm arg)*)
@@ -112,7 +115,31 @@ def aspectName : SpecC20.Aspect → String
   | .acceptedUnresolvable => "accepted-unresolvable" | .rejectedResolvable => "rejected-resolvable"
   | .wrongMatches => "wrong-matches" | .shape => "shape"
 
+def dpkg? : SExp → Option DPkg
+  | .list [.atom "pkg", p, c, .list is] => do pure ⟨← hex? p, ← bool? c, ← is.mapM natOfAtom⟩
+  | _ => none
+
+def dgraph? (fs : List String) : Option DGraph :=
+  match parseSExp (" ".intercalate fs) with
+  | some (.list (.atom "graph" :: ps)) => ps.mapM dpkg?
+  | _ => none
+
+def showSrc : PkgSource → String
+  | .graph d => "graph:" ++ toString d
+  | .importer => "importer"
+
+def src? (s : String) : Option PkgSource :=
+  if s == "importer" then some .importer
+  else if s.startsWith "graph:" then (s.drop 6).toNat?.map .graph
+  else none
+
 def handle : List String → Option String
+  | "c20dep" :: root :: path :: rest => do
+    let g ← dgraph? rest
+    pure (showSrc (pkgSource g (← root.toNat?) (← bytesOfHex path)))
+  | "spec20dep" :: obs :: root :: path :: rest => do
+    let g ← dgraph? rest
+    pure (if SpecC20.depHolds g (← root.toNat?) (← bytesOfHex path) (← src? obs) then "holds" else "violates")
   | "c20file" :: fx :: rest => do
     let fixed ← bool? (.atom fx)
     let inp ← parseTop rest
